@@ -32,7 +32,27 @@ from ..engine.report import Report
 from ..engine.universe import AnalysisError, ClassInfo, FuncInfo, own_nodes
 from .. import rfc
 
-VALIDATOR = "puresnmp.util:validate_response_id"
+def validators(ctx: Ctx) -> List[str]:
+    """Functions that play the validator role: two parameters, raise InvalidResponseId (found by role, wherever they live)."""
+    cached = getattr(ctx, "_c07_validators", None)
+    if cached is not None:
+        return cached
+    target = ctx.u.cls("puresnmp.exc:InvalidResponseId")
+    out = []
+    for fn in ctx.u.functions.values():
+        if fn.module.external or fn.cls is not None or fn.parent is not None or len(fn.params) != 2:
+            continue
+        for n in own_nodes(fn.node):
+            if isinstance(n, ast.Raise) and n.exc is not None and ctx.exc_class(fn, n.exc) == target:
+                out.append(fn.key)
+                break
+    named = ctx.u.maybe_func("puresnmp.util:validate_response_id")
+    if named is not None and named.key not in out:
+        out.append(named.key)  # documented validator: checked even if it no longer raises (then R2 reports it)
+    if not out:
+        raise AnalysisError("no function raising InvalidResponseId for two ids was found (validator vanished)")
+    ctx._c07_validators = out  # type: ignore[attr-defined]
+    return out
 
 
 def pdu_request_id_expr(ctx: Ctx, fn: FuncInfo, expr: ast.AST) -> Optional[ast.expr]:
@@ -71,7 +91,11 @@ def pdu_request_id_expr(ctx: Ctx, fn: FuncInfo, expr: ast.AST) -> Optional[ast.e
 
 
 def check_validator(ctx: Ctx, rep: Report) -> None:
-    fn = ctx.fn(VALIDATOR)
+    for key in validators(ctx):
+        check_one_validator(ctx, rep, ctx.fn(key))
+
+
+def check_one_validator(ctx: Ctx, rep: Report, fn: FuncInfo) -> None:
     params = fn.params
     site = fn.site()
     text = "validator raises InvalidResponseId iff request id and response id differ"
@@ -140,8 +164,9 @@ def validation_after(ctx: Ctx, fn: FuncInfo, sender_call: ast.Call, id_vn, rep: 
                     raw_names.add(n.id)
     resp_names = derived_names(defs, raw_names, fn.node) if raw_names else set()
     good_nodes = []
-    for call in calls_resolving_to(ctx, fn, VALIDATOR):
-        bound = bind_call_args(call, ctx.fn(VALIDATOR).params, skip_self=False)
+    for call in calls_resolving_to(ctx, fn, *validators(ctx)):
+        callee = next(c for c in ctx.r.callees(fn, call) if isinstance(c, FuncInfo) and c.key in validators(ctx))
+        bound = bind_call_args(call, callee.params, skip_self=False)
         vals = list(bound.values())
         if len(vals) != 2:
             continue
@@ -261,7 +286,7 @@ def run(ctx: Ctx, rep: Report) -> None:
             continue
         # any other function must validate: look for a validator call dominating the normal exit
         cfg = ctx.cfg(fn)
-        vnodes = [cfg_node_of(cfg, c) for c in calls_resolving_to(ctx, fn, VALIDATOR)]
+        vnodes = [cfg_node_of(cfg, c) for c in calls_resolving_to(ctx, fn, *validators(ctx))]
         vnodes = [n for n in vnodes if n is not None]
         snode = cfg_node_of(cfg, call)
         ok = bool(vnodes) and snode is not None and cfg.must_pass(snode, [cfg.exit], vnodes)
@@ -424,7 +449,7 @@ def check_discovery(ctx: Ctx, rep: Report) -> None:
                     pid = pdu_request_id_expr(ctx, fn, node)
             if pid is not None:
                 pdu_ids.append(pid)
-    vcalls = calls_resolving_to(ctx, fn, VALIDATOR)
+    vcalls = calls_resolving_to(ctx, fn, *validators(ctx))
     if not header_ids or not pdu_ids or not vcalls:
         rep.violated("C07-R5", site, "discovery validates the reply's message id against the probe's", f"header ids={len(header_ids)} pdu ids={len(pdu_ids)} validator calls={len(vcalls)}", key=f"{fn.key}|discovery-validation-missing")
         return
